@@ -219,7 +219,8 @@ CLAIMED = {
              "set (C19_law_of_check, C19_current_tree; census: there is no sixth combinator); And/Or = junction of nonNil "
              "(operands) with nonNil the order-preserving nil filter (template check + C19_nil_skipped / C19_order_kept). "
              "Harness: both sides of the law rendered for generated receivers and callback functions with a call counter, nil "
-             "functions, nil operands at random positions.",
+             "functions, nil operands at random positions. C19_api_applyif_select / _update: the same law in the functional API model "
+             "(Model/Api.v), compared call by call with the implementation (api mode).",
         note="Trusted: translator (pure AST dump) and the reading of the small Go fragment in Meta/Cond.v.",
         ref="DESIGN.md §6 C19"),
     "C14": dict(
